@@ -131,11 +131,9 @@ def rule_typed_attrs(ctx):
             if "(Self::Left(p),Self::Left(n))=>" not in t or "(Self::Right(p),Self::Right(n))=>" not in t or "_=>return Err(" not in t:
                 ctx.report("typed:merge:Either", w, "`Either::merge_attrs` no longer rejects attributes of different kinds (e.g. `#[from(forward)] #[from(i32)]`)", {})
         if ty == "ContainerAttributes" and fn.file.rel.endswith("fmt/mod.rs"):
-            if "if new.fmt.and_then(|n|prev.fmt.replace(n)).is_some(){return Err(" not in t or "prev.bounds.0.extend(new.bounds.0)" not in t:
-                ctx.report("typed:merge:fmt-container", w, "fmt container attributes: a second format literal must be an error and `bound(..)` predicates must accumulate", {})
-        if ty == "ContainerAttributes" and fn.file.rel.endswith("display.rs"):
-            if "if new.rename_all.and_then(|n|prev.rename_all.replace(n)).is_some(){return Err(" not in t:
-                ctx.report("typed:merge:rename_all", w, "a second `rename_all` is no longer rejected", {})
+            # (the singular `fmt` / `rename_all` fields are decided semantically by OPT-ALG, optrules.rule_option_flow)
+            if "prev.bounds.0.extend(new.bounds.0)" not in t:
+                ctx.report("typed:merge:fmt-container", w, "fmt container attributes: `bound(..)` predicates of the later attribute must be appended to the earlier ones", {})
     for need_ in ("Empty", "Skip", "Types", "Either", "ConversionsAttribute", "ReprInt", "ReprConversion", "ContainerAttributes"):
         if need_ not in seen:
             ctx.report(f"typed:merge-missing:{need_}", UTILS, f"no `merge_attrs` override found for `{need_}` any more", {})
@@ -193,27 +191,8 @@ def rule_typed_attrs(ctx):
 
 def rule_attr_positions(ctx):
     """ATTR-POS: every fmt / conversion expander reads the attribute positions its documentation names through an entry point that enforces full consumption (`parse_attrs*` -> `parse_args_with`), and rejects a field-level format next to a container-level one (Debug) or a struct-level attribute next to a field-level one (AsRef, Into skip)."""
-    checks = [
-        ("impl/src/fmt/debug.rs", "Expansion::validate_attrs", "attributes are not allowed on fields when"),
-        ("impl/src/as/mod.rs", "expand", "cannot be placed on both struct and its field"),
-        ("impl/src/as/mod.rs", "expand", "cannot be used in the same struct with other"),
-        ("impl/src/as/mod.rs", "expand", "can only be placed on structs with exactly"),
-        ("impl/src/into.rs", "<ConversionsAttribute as Parse>::parse", "mixing regular types with wrapped into"),
-        ("impl/src/fmt/display.rs", "expand_enum", "implicit formatting of unit enum variant is supported only for"),
-        ("impl/src/fmt/display.rs", "expand_union", "unions must have"),
-        ("impl/src/try_from.rs", "expand", "attribute is not supported yet"),
-    ]
-    for rel, qual, msg in checks:
-        fn = A.get_fn(ctx.files, rel, qual)
-        t = A.fn_text(fn)
-        ctx.instance(f"{rel}::{qual}:{msg[:24]}")
-        ok = False
-        for c, ps in A.calls(fn.block, lambda p: p.endswith("Error::new") or p.endswith("Error::new_spanned")):
-            if msg.replace(" ", "") in A.render(c).replace(" ", ""):
-                # it must be returned: `return Err(..)` / `Err(..)` tail / `.ok_or_else`
-                ok = any(A.kind(p) in ("Expr::Return",) or (A.kind(p) == "Expr::Call" and A.path_str(p["func"]) == "Err") or (A.kind(p) == "Expr::MethodCall" and p["method"]["sym"] in ("ok_or_else", "ok_or")) for p in ps)
-        if not ok:
-            ctx.report(f"pos:{rel}::{qual}:{msg[:24]}", ctx.where(fn.file, fn.node), f"the diagnostic \"{msg}..\" is no longer raised by `{qual}`: the conflicting / misplaced attribute is silently accepted", {})
+    # (which refusals exist and under which conditions is REJECT-LEDGER's subject, matched by condition and not by
+    # message text; that every constructed diagnostic is actually *raised* is checked there for all sites)
     # attribute entry points
     n = 0
     for rel, f in sorted(ctx.files.items()):
